@@ -409,5 +409,10 @@ pub fn phase(args: &Args, master: &Path) -> Report {
     );
     r.bound("depth", depth);
     r.bound("alphabet", nops);
+    // second part of the phase: histories of OpenOptions setter calls
+    let r2 = crate::builder::run_all(args, master);
+    r.merge(r2);
+    r.rule.push_str(" ");
+    r.rule.push_str(&crate::builder::rule(args.thorough));
     r
 }
